@@ -419,6 +419,19 @@ func main() {
 			run("udp", e.udpTunnel)
 		case "udp-race":
 			run("udp-race", e.udpRace)
+		case "file-race":
+			run("race-file-download", e.fileRace)
+		case "stream-race":
+			for _, pth := range []string{"exit", "forward"} {
+				for _, how := range []string{"close", "reset", "stop"} {
+					run("race-"+pth+"-"+how, func() { e.streamRace(pth, how) })
+				}
+			}
+			for _, pth := range []string{"shellpty", "shellout"} {
+				for _, how := range []string{"close", "stop"} {
+					run("race-"+pth+"-"+how, func() { e.streamRace(pth, how) })
+				}
+			}
 		case "icmp":
 			run("icmp", e.icmpTunnel)
 		case "shell":
@@ -434,6 +447,17 @@ func main() {
 	// fixed witnesses first
 	run("direct", e.directAfterClose)
 	run("udp-race", e.udpRace)
+	for _, pth := range []string{"exit", "forward"} {
+		for _, how := range []string{"close", "reset", "stop"} {
+			run("race-"+pth+"-"+how, func() { e.streamRace(pth, how) })
+		}
+	}
+	for _, pth := range []string{"shellpty", "shellout"} {
+		for _, how := range []string{"close", "stop"} {
+			run("race-"+pth+"-"+how, func() { e.streamRace(pth, how) })
+		}
+	}
+	run("race-file-download", e.fileRace)
 	n := c.N(14, 120)
 	for i := 0; i < n; i++ {
 		run("tcp", func() { e.streamTunnel("tcp") })
